@@ -491,10 +491,35 @@ func runPass(r *mc.Run, pass string, coarse bool, bound int, budget time.Duratio
 		}
 		return len(s)
 	}
-	// simplest first: schedules that deviate early from the default one reproduce most reliably
-	sort.SliceStable(viols, func(a, b int) bool { return firstDev(viols[a].c.Schedule) < firstDev(viols[b].c.Schedule) })
+	// Which candidates reproduce in a fresh process: observed, not explained - a race between a thread
+	// that has run to completion and one that starts afterwards is often reported only deep into a
+	// worker's life, while schedules in which the second thread has already started before the first
+	// one's conflicting access (two or more switches, the last of them early) reproduce reliably.
+	// So: interleaved candidates first (by position of their last switch), then the serial ones (by
+	// position of their first switch).
+	key := func(s []int16) (int, int) {
+		n, last := 0, 0
+		for i, c := range s {
+			if c != 0 {
+				n++
+				last = i
+			}
+		}
+		if n >= 2 {
+			return 0, last
+		}
+		return 1, firstDev(s)
+	}
+	sort.SliceStable(viols, func(a, b int) bool {
+		ka, pa := key(viols[a].c.Schedule)
+		kb, pb := key(viols[b].c.Schedule)
+		if ka != kb {
+			return ka < kb
+		}
+		return pa < pb
+	})
 	for _, pv := range viols {
-		if r.Recorded(pv.v.Sig) || tries[pv.v.Sig] >= 12 {
+		if r.Recorded(pv.v.Sig) || tries[pv.v.Sig] >= 24 {
 			continue
 		}
 		tries[pv.v.Sig]++
